@@ -87,6 +87,7 @@ def session_level(ctx, drv, fast, only):
         ("burst", ctx.pick(30, 300), 3, 3),
         ("burst", ctx.pick(6, 60), 2, 8),
         ("burst-sameid", ctx.pick(3, 8), 2, ctx.pick(4, 8)),
+        ("race", ctx.pick(4, 12), 0, 2),           # gated RemoveTorrent(a) || AddTorrent(ID: a)
     ]
     for i, (mode, n, ops, k) in enumerate(plan):
         if only and mode not in only:
